@@ -142,6 +142,17 @@ Proof.
     destruct H as [k ->]. rewrite Nat.even_mul in E. cbn in E. discriminate.
 Qed.
 
+(* ------------------------------------------------------------------ conditionals in canonical orientation
+   rust2coq translates an `if` WITH an else arm whose condition is `!c`, or `!=` / `>=` / `>` on usize / isize / bool, as the
+   `if` on `c` resp. `==` / `<` / `<=` with the arms exchanged (so that negating the condition and swapping the arms in the
+   source gives the same Gallina); where the hand-written model has the other orientation these lemmas bridge it. *)
+Lemma if_leb_flip {Y} (a b : nat) (x y : Y) : (if a <=? b then x else y) = (if b <? a then y else x).
+Proof. rewrite Nat.leb_antisym. destruct (b <? a); reflexivity. Qed.
+Lemma if_ltb_flip {Y} (a b : nat) (x y : Y) : (if a <? b then x else y) = (if b <=? a then y else x).
+Proof. rewrite Nat.ltb_antisym. destruct (b <=? a); reflexivity. Qed.
+Lemma if_negb_flip {Y} (c : bool) (x y : Y) : (if negb c then x else y) = (if c then y else x).
+Proof. destruct c; reflexivity. Qed.
+
 (* ------------------------------------------------------------------ simulation between loops over different state types *)
 Definition res_rel {X Y} (R : X -> Y -> Prop) (a : res X) (b : res Y) : Prop :=
   match a, b with Ok x, Ok y => R x y | Panic k, Panic k' => k = k' | _, _ => False end.
